@@ -27,7 +27,11 @@ CONFIG = {
              "x internal nodes with label / taxon / nothing x edge lengths (absent, 0, ints <= 1e9, floats incl. "
              "1e-300, 1.5e+20, negative, mixed) x root-edge length x rooting {True,False,None} x weights x option "
              "pair (a)-(f) x translate_tree_taxa (NEXUS) x entry point (TreeList/Tree as_string/write(path) -> "
-             "TreeList.get/Tree.get incl. tree_offset; Newick/NEXUS: 1 in 4 read into the original namespace). Sweep: every label of length <= 2 (quick) / <= 3 (thorough) over a "
+             "TreeList.get/Tree.get incl. tree_offset; Newick/NEXUS: 1 in 4 read into the original namespace) x "
+             "namespace history (throw-away taxa added at drawn points and removed again, then sort()/sort(reverse)/"
+             "reverse(), so list position != accession index) x in 2 of 3 cases a SECOND write/read of the same objects "
+             "in the same process after relabelling none/some/all taxa or rotating their labels, with a drawn format, "
+             "option pair and entry point. Sweep: every label of length <= 2 (quick) / <= 3 (thorough) over a "
              "45-character alphabet as a leaf of a three-leaf tree (length 1 / <= 2 also as an internal node label) x "
              "formats x label option pairs (a)-(d) x translate. "
              "Non-trivial = a label with a character outside [A-Za-z0-9], or a non-default option pair, or a length "
@@ -45,6 +49,8 @@ CONFIG = {
                     "internal nodes of one tree list carry either labels or taxa, never both kinds (a Newick token "
                     "cannot tell them apart; the reader option suppress_internal_node_taxa decides for the whole file)",
                     "under suppress_rooting all trees of a list share the rooting state given to the reader",
+                    "relabelling a Taxon of a namespace (taxon.label = ...) to a label that keeps all labels distinct "
+                    "up to case is a supported operation; sort()/reverse()/remove_taxon() on a namespace are too",
                     "tree weight None is not compared (the reader substitutes its default weight)",
                     "NeXML: undefined rooting may come back as unrooted, a missing root-edge length as 0"],
 }
@@ -165,8 +171,15 @@ def cases(draw, max_leaves, fmt=None):
     imode = draw(st.sampled_from(["none", "label", "label", "taxon"]))
     ntrees = draw(st.sampled_from([0, 1, 1, 2, 2, 3, 4]))
     n_taxa = draw(st.sampled_from([1, 2, 3, 4, 5, 6])) if max_leaves <= 8 and draw(st.booleans()) else draw(st.integers(1, max_leaves + 2))
-    labels = draw(st.lists(label_strategy(), min_size=n_taxa, max_size=n_taxa, unique_by=lambda s: s.lower()))
+    with_second = draw(st.integers(0, 2)) > 0
+    npool = 2 * n_taxa if with_second else n_taxa
+    pool = draw(st.lists(label_strategy(), min_size=npool, max_size=npool, unique_by=lambda s: s.lower()))
+    labels = pool[:n_taxa]
     ns_order = list(draw(st.permutations(list(range(n_taxa)))))
+    # namespace history: throw-away taxa that join at drawn points and are removed again (list position != accession
+    # index afterwards), then an optional sort()/reverse() of the namespace
+    hist = {"ghosts": sorted(draw(st.lists(st.integers(0, n_taxa), max_size=2))) if draw(st.booleans()) else [],
+            "sort": draw(st.sampled_from([None, None, "fwd", "rev", "reverse"]))}
     list_rooting = draw(st.sampled_from([True, False, None]))
     trees = []
     for _ in range(ntrees):
@@ -177,10 +190,35 @@ def cases(draw, max_leaves, fmt=None):
     else:
         route = draw(st.sampled_from(["list_string", "list_string", "list_path", "tree_string", "tree_path",
                                       "tree_offset"]))
+    second = None
+    if with_second:
+        # a second write/read of the SAME objects in the same process, after relabelling taxa
+        mode = draw(st.sampled_from(["same", "some", "some", "all", "rotate"]))
+        alt = pool[n_taxa:]
+        if mode == "same":
+            labels2 = list(labels)
+        elif mode == "all":
+            labels2 = list(alt)
+        elif mode == "rotate":
+            labels2 = labels[1:] + labels[:1]
+        else:
+            mask = draw(st.lists(st.booleans(), min_size=n_taxa, max_size=n_taxa))
+            labels2 = [alt[i] if mask[i] else labels[i] for i in range(n_taxa)]
+        fmt2 = draw(st.sampled_from([fmt, fmt, "newick", "nexus", "nexml"]))
+        if fmt2 == "nexml":
+            pair2 = "a"
+        else:
+            pair2 = draw(st.sampled_from(["a", "a", "b", "c", "d", "f"] + (["e"] if pair == "e" else [])))
+        second = {"relabel": mode, "labels": labels2, "fmt": fmt2, "pair": pair2,
+                  "translate": draw(st.booleans()) if fmt2 == "nexus" else False,
+                  "route": route if draw(st.booleans()) else draw(st.sampled_from(
+                      ["list_string", "list_path"] if ntrees == 0 else
+                      ["list_string", "list_path", "tree_string", "tree_path", "tree_offset"])),
+                  "into": fmt2 != "nexml" and draw(st.integers(0, 3)) == 0}
     return {"fmt": fmt, "pair": pair, "imode": imode, "labels": labels, "ns_order": ns_order, "trees": trees,
             "translate": draw(st.booleans()) if fmt == "nexus" else False, "route": route,
             "k": draw(st.integers(0, 3)), "list_rooting": list_rooting,
-            "into": fmt != "nexml" and draw(st.integers(0, 3)) == 0}
+            "into": fmt != "nexml" and draw(st.integers(0, 3)) == 0, "hist": hist, "second": second}
 
 
 # ---------------------------------------------------------------------------
@@ -345,21 +383,40 @@ class Run(object):
 
 
 def build(case):
+    """Returns (ns, tree list, taxa by index, expected order of taxon indices in the namespace)."""
     import dendropy
     labels = case["labels"]
+    hist = case.get("hist") or {"ghosts": [], "sort": None}
     ns = dendropy.TaxonNamespace()
     taxa = {}
-    for idx in case["ns_order"]:
-        t = dendropy.Taxon(label=labels[idx])
-        ns.add_taxon(t)
-        taxa[idx] = t
+    ghosts = []
+    for pos, idx in enumerate(list(case["ns_order"]) + [None]):
+        for g in hist["ghosts"]:
+            if g == pos:
+                ghosts.append(ns.new_taxon(label="\u2603ghost%d" % len(ghosts)))   # label outside the generated domain
+        if idx is not None:
+            t = dendropy.Taxon(label=labels[idx])
+            ns.add_taxon(t)
+            taxa[idx] = t
+    for g in ghosts:
+        ns.remove_taxon(g)
+    order = list(case["ns_order"])
+    if hist["sort"] == "fwd":
+        ns.sort()
+        order.sort(key=lambda i: labels[i])
+    elif hist["sort"] == "rev":
+        ns.sort(reverse=True)
+        order.sort(key=lambda i: labels[i], reverse=True)
+    elif hist["sort"] == "reverse":
+        ns.reverse()
+        order.reverse()
     tl = dendropy.TreeList(taxon_namespace=ns)
     for tr in case["trees"]:
         t = shapes.build_tree(tr["spec"], ns, taxa, is_rooted=tr["rooted"])
         if tr["weight"] is not None:
             t.weight = tr["weight"]
         tl.append(t)
-    return ns, tl
+    return ns, tl, taxa, order
 
 
 def expected_reftree(case, tr):
@@ -408,12 +465,25 @@ def compare_tree(run, want, tree, tag):
 
 
 def run_case(ctx, case, sub):
+    ns, tl, taxa, order = build(case)
+    if [t.label for t in ns] != [case["labels"][i] for i in order]:
+        raise runner.HarnessError("namespace history model disagrees with the namespace: %r" % ([t.label for t in ns],))
+    round_trip(Run(ctx, case, sub), case, ns, tl, order)
+    second = case.get("second")
+    if second:
+        # history on the same objects: relabel the original taxa, then write + read again (possibly another format)
+        for idx, t in taxa.items():
+            if t.label != second["labels"][idx]:
+                t.label = second["labels"][idx]
+        case2 = dict(case, second=None, **second)
+        round_trip(Run(ctx, case2, sub), case2, ns, tl, order)
+
+
+def round_trip(run, case, ns, tl, order):
     import dendropy
-    run = Run(ctx, case, sub)
     fmt, route = case["fmt"], case["route"]
     labels = case["labels"]
     w, r = options(case)
-    ns, tl = build(case)
     ntrees = len(case["trees"])
     k = case["k"] % ntrees if ntrees else 0
     wants = [expected_reftree(case, tr) for tr in case["trees"]]
@@ -439,7 +509,7 @@ def run_case(ctx, case, sub):
             after, problems = snapshot(t)
             run.check(not problems and same_reftree(after, wants[i]), "writing_leaves_tree_unchanged",
                       lambda: "tree %d after writing: %r %r" % (i, problems, describe(after)))
-        run.check([t.label for t in ns] == [labels[i] for i in case["ns_order"]], "writing_leaves_namespace_unchanged",
+        run.check([t.label for t in ns] == [labels[i] for i in order], "writing_leaves_namespace_unchanged",
                   lambda: "namespace after writing %r" % ([t.label for t in ns],))
         srckw = {"path": path} if text is None else {"data": text}
         into = bool(case.get("into"))
@@ -477,7 +547,7 @@ def run_case(ctx, case, sub):
         got_labels = [t.label for t in got_ns]
         if into:
             run.check(got_ns is ns, "read_into_given_namespace", "TreeList/Tree.get(taxon_namespace=ns) uses another namespace")
-            want_labels = [labels[i] for i in case["ns_order"]]
+            want_labels = [labels[i] for i in order]
         elif fmt == "newick":
             want_idx = []
             for i in run.written:
@@ -486,7 +556,7 @@ def run_case(ctx, case, sub):
                         want_idx.append(t)
             want_labels = [labels[i] for i in want_idx]
         else:
-            want_labels = [labels[i] for i in case["ns_order"]]
+            want_labels = [labels[i] for i in order]
         run.check(got_labels == want_labels, "namespace_labels",
                   lambda: "namespace read %r want %r (%s %s)\n%s" % (got_labels, want_labels, route, (w, r), shown[:1500]))
     finally:
@@ -520,6 +590,18 @@ def bookkeeping(ctx, case, sub):
         ctx.cls("nexus:translate")
     if case.get("into"):
         ctx.cls("read_into_original_namespace")
+    hist = case.get("hist") or {"ghosts": [], "sort": None}
+    n = len(case["labels"])
+    if any(g < n for g in hist["ghosts"]):
+        ctx.cls("ns_history:taxon_removed_before_last")
+    if hist["sort"]:
+        ctx.cls("ns_history:%s" % hist["sort"])
+    if case["translate"] and (any(g < n for g in hist["ghosts"]) or hist["sort"]):
+        ctx.cls("nexus:translate_with_position_not_accession_order")
+    second = case.get("second")
+    if second:
+        ctx.cls("second_round:relabel_%s" % second["relabel"])
+        ctx.cls("second_round:%s_then_%s" % (case["fmt"], second["fmt"]))
     if len(case["labels"]) > len(set(case["labels"]) & used) and case["trees"]:
         ctx.cls("ns:taxa_on_no_tree")
     for tr in case["trees"]:
@@ -540,7 +622,8 @@ def bookkeeping(ctx, case, sub):
     ctx.cls("case:has_tricky_label" if tricky else "case:plain_labels_only")
     if tricky or case["pair"] != "a" or any_sci:
         ctx.nontrivial([case["fmt"], case["pair"], case["translate"], sorted(alllabels),
-                        [shapes.spec_to_newick(tr["spec"]) for tr in case["trees"]]])
+                        [shapes.spec_to_newick(tr["spec"]) for tr in case["trees"]], hist,
+                        [second["fmt"], second["pair"], second["labels"]] if second else None])
     if sub == "random":
         ctx.sample("%s:%s" % (case["fmt"], case["pair"]), case)
 
